@@ -510,16 +510,16 @@ Print Assumptions C16_concurrent_budget.
 
 (* ================= order of effects in the source ================= *)
 
-(* the call order inside concurrentCache.Set / store, the single-context cache's Set and
-   Client.Do, re-read from the Go source on every run, is the order the models assume *)
+(* the order of the observable effects (in-flight map, Once, cache operations, sends) inside
+   concurrentCache.Set / store, the single-context cache's Set and Client.Do, re-read from
+   the Go source on every run, is the order the models assume *)
 Theorem C16_source_call_order :
-  calls_cc_set = [b "cc.status.LoadOrStore"; b "fetchOnce.Do"; b "fetch"; b "cc.status.Delete"; b "cc.store"] /\
+  calls_cc_set = [b "cc.status.LoadOrStore"; b "fetchOnce.Do"; b "fetch"; b "cc.status.Delete"] /\
   calls_cc_store = [b "cc.cache.LoadOrStore"; b "cc.cache.Store"; b "entry.tokens.Store"] /\
   (calls_fallback_set = [b "fc.primary.Set"; b "fc.secondary.Set"] /\
    calls_host_set = [b "fetch"; b "cc.store"; b "c.Cache.Set"]) /\
   calls_do = [b "c.send"; b "cache.GetScheme"; b "cache.GetToken"; b "cache.GetToken"; b "c.send";
-              b "parseChallenge"; b "cache.Set"; b "c.fetchBasicAuth"; b "CleanScopes"; b "cache.GetToken";
-              b "rewindRequestBody"; b "c.send"; b "cache.Set"; b "c.fetchBearerToken";
+              b "cache.Set"; b "cache.GetToken"; b "rewindRequestBody"; b "c.send"; b "cache.Set";
               b "rewindRequestBody"; b "c.send"].
 Proof. exact (conj cc_set_order (conj cc_store_order (conj fallback_set_order do_order))). Qed.
 Print Assumptions C16_source_call_order.
